@@ -134,6 +134,7 @@ type req struct {
 	OffSeed uint64          `json:"offseed,omitempty"`
 	N       int             `json:"n,omitempty"`      // churn: iterations per goroutine; lsp: repetitions
 	Expect  map[int]outcome `json:"expect,omitempty"` // batch: sequential outcome per spec index
+	Cold    bool            `json:"cold,omitempty"`   // lsp: no sequential pass before the concurrent one
 }
 
 type rep struct {
@@ -237,7 +238,7 @@ func serve(line []byte) interface{} {
 		time.Sleep(20 * time.Millisecond)
 		r.Lost = int(lost)
 	case "lsp":
-		for n := 0; n < q.N; n++ {
+		for n := 0; n < q.N && !q.Cold; n++ {
 			for _, j := range q.Jobs {
 				r.Errors += lspimpl.VerifSyntaxErrors(q.Specs[j].Text)
 			}
@@ -276,7 +277,7 @@ func memoryWatchdog(limitMB int) {
 // ------------------------------------------------------------------ replay descriptor
 
 type replay struct {
-	Kind    string `json:"kind"` // seq | batch | churn | lsp | keyed | post
+	Kind    string `json:"kind"` // seq | batch | cold | coldlsp | churn | lsp | keyed | post
 	Specs   []spec `json:"specs,omitempty"`
 	Jobs    []int  `json:"jobs,omitempty"`
 	K       int    `json:"k,omitempty"`
@@ -298,14 +299,21 @@ type runner struct {
 }
 
 // call runs one request in the worker; a dead / hung worker is itself a finding
-func (r *runner) call(q req, rp replay) (rep, bool) {
+func (r *runner) call(q req, rp replay) (rep, bool) { return r.callOn(r.w, q, rp, "") }
+
+// callOn: cold != "" marks the first request of a fresh worker process (nothing has warmed the ANTLR tables): a race
+// report there gets the key race:cold-start[:<what>]
+func (r *runner) callOn(w *common.Worker, q req, rp replay, cold string) (rep, bool) {
 	var out rep
-	died, timedOut, stderr := r.w.Call(q, &out, r.deadline)
+	died, timedOut, stderr := w.Call(q, &out, r.deadline)
 	if !died && !timedOut {
 		return out, true
 	}
 	r.deaths++
 	switch {
+	case cold != "" && strings.Contains(stderr, "WARNING: DATA RACE"):
+		site := raceSite(stderr)
+		r.c.Fail(cold, fmt.Sprintf("race detector, first concurrent %s of a fresh process (k=%d, GOMAXPROCS=%d, no sequential pass before): %s: %s", q.Op, q.K, q.Procs, site, clip(raceSummary(stderr), 300)), rp)
 	case timedOut:
 		r.c.Fail("hang:"+q.Op, fmt.Sprintf("%s (k=%d, GOMAXPROCS=%d) did not finish within %v", q.Op, q.K, q.Procs, r.deadline), rp)
 	case strings.Contains(stderr, "WARNING: DATA RACE"):
@@ -441,6 +449,68 @@ func (r *runner) batch(specs []spec, base []outcome, stable []bool, jobs []int, 
 	}
 	if out.Count != 0 {
 		r.c.Fail("lexer-state-leak:compile", fmt.Sprintf("%d lexer-state entries left after a batch of %d compilations by %d goroutines (every parse must delete its entry)", out.Count, len(jobs), k), rp)
+	}
+}
+
+// coldBatch: a FRESH worker process whose very first action is a concurrent batch over distinct specs (the ANTLR
+// runtime fills caches inside ATN states on the first visit of a grammar state, so a sequential pass beforehand would
+// hide any sharing of an ATN between instances). The results are compared with the sequential baseline afterwards.
+type coldResult struct {
+	jobs []int
+	outs []outcome
+	rp   replay
+}
+
+func (r *runner) coldBatch(specs []spec, jobs []int, k, procs int, offSeed uint64) *coldResult {
+	ss, js := subset(specs, jobs)
+	rp := replay{Kind: "cold", Specs: ss, Jobs: js, K: k, Procs: procs, OffSeed: offSeed, Reps: 5}
+	w := common.NewWorker()
+	defer w.Close()
+	out, ok := r.callOn(w, req{Op: "batch", Specs: ss, Jobs: js, K: k, Procs: procs, OffSeed: offSeed}, rp, "race:cold-start")
+	r.c.Hist(fmt.Sprintf("cold-batch:k<=%d", bucket(k)))
+	for _, j := range jobs {
+		r.c.Count(fmt.Sprintf("cold:%s:%d:%d:%d", specs[j].name(), k, procs, offSeed), true)
+		r.c.Hist("cold-compile:" + specs[j].Kind)
+	}
+	if !ok || len(out.Outcomes) != len(jobs) {
+		return nil
+	}
+	if out.Count != 0 {
+		r.c.Fail("lexer-state-leak:compile", fmt.Sprintf("%d lexer-state entries left after the first batch of a fresh process (%d compilations, %d goroutines)", out.Count, len(jobs), k), rp)
+	}
+	return &coldResult{jobs: jobs, outs: out.Outcomes, rp: rp}
+}
+
+func (r *runner) judgeCold(specs []spec, base []outcome, stable []bool, cr *coldResult) {
+	if cr == nil {
+		return
+	}
+	for i, j := range cr.jobs {
+		if stable[j] && cr.outs[i] != base[j] {
+			r.c.Fail("differs-concurrent:cold:"+specs[j].Kind, fmt.Sprintf("%s compiled in the first concurrent batch of a fresh process (k=%d) gives %+v, sequentially %+v", specs[j].name(), cr.rp.K, cr.outs[i], base[j]), cr.rp)
+		}
+	}
+}
+
+func (r *runner) coldLsp(texts []spec, k, procs, n int, offSeed uint64) {
+	jobs := make([]int, len(texts))
+	for i := range jobs {
+		jobs[i] = i
+	}
+	rp := replay{Kind: "coldlsp", Specs: texts, Jobs: jobs, K: k, Procs: procs, N: n, OffSeed: offSeed, Reps: 5}
+	w := common.NewWorker()
+	defer w.Close()
+	out, ok := r.callOn(w, req{Op: "lsp", Cold: true, Specs: texts, Jobs: jobs, K: k, Procs: procs, N: n, OffSeed: offSeed}, rp, "race:cold-start:lsp-diagnostics")
+	r.c.Count(fmt.Sprintf("coldlsp:%d:%d:%d", k, procs, offSeed), true)
+	r.c.HistN("lsp:cold-syntax-checks", len(texts)*n)
+	if !ok {
+		return
+	}
+	if out.Errors != 0 {
+		r.c.Fail("lsp-diagnostics:spurious", fmt.Sprintf("the language server's syntax check, run concurrently in a fresh process, reports %d diagnostics on specs the compiler accepts (k=%d)", out.Errors, k), rp)
+	}
+	if out.Count != 0 {
+		r.c.Fail("lexer-state-leak:lsp-diagnostics", fmt.Sprintf("%d lexer-state entries left after %d concurrent syntax checks by the language server", out.Count, len(texts)*n), rp)
 	}
 }
 
@@ -1107,6 +1177,40 @@ func main() {
 	kc.Close()
 	phase("keyed")
 
+	// ---- cold start: fresh processes whose first action is a concurrent batch (before any baseline exists)
+	nCold := 2
+	if thorough {
+		nCold = 6
+	}
+	var colds []*coldResult
+	for i := 0; i < nCold*scale && r.deaths < 3; i++ {
+		k := []int{16, 8, 32, 64, 12, 24}[i%6]
+		if k > len(specs) {
+			k = len(specs)
+		}
+		perm := make([]int, len(specs))
+		for j := range perm {
+			perm[j] = j
+		}
+		for j := len(perm) - 1; j > 0; j-- {
+			x := c.Rng.Intn(j + 1)
+			perm[j], perm[x] = perm[x], perm[j]
+		}
+		colds = append(colds, r.coldBatch(specs, perm[:k], k, 4+c.Rng.Intn(13), c.Rng.Uint64()))
+	}
+	{
+		var texts []spec
+		for _, s := range specs {
+			if (s.Kind == "gen" || s.Kind == "mixin") && len(texts) < 8 {
+				texts = append(texts, s)
+			}
+		}
+		for i := 0; i < (nCold+1)/2*scale && r.deaths < 3; i++ {
+			r.coldLsp(texts, 8, 8, 4, c.Rng.Uint64())
+		}
+	}
+	phase("cold")
+
 	// ---- sequential baseline
 	passes := 2
 	if thorough && !raceEnabled {
@@ -1115,6 +1219,9 @@ func main() {
 	base, stable, ok := r.sequential(specs, passes)
 	if !ok {
 		return
+	}
+	for _, cr := range colds {
+		r.judgeCold(specs, base, stable, cr)
 	}
 	phase("sequential")
 
@@ -1251,6 +1358,20 @@ func doReplay(r *runner, rp replay) {
 	case "lsp":
 		for i := 0; i < reps && r.deaths < 2; i++ {
 			r.lsp(rp.Specs, rp.K, rp.Procs, rp.N, rp.OffSeed+uint64(i))
+		}
+	case "cold":
+		var colds []*coldResult
+		for i := 0; i < reps && r.deaths < 2; i++ {
+			colds = append(colds, r.coldBatch(rp.Specs, rp.Jobs, rp.K, rp.Procs, rp.OffSeed+uint64(i)))
+		}
+		if base, stable, ok := r.sequential(rp.Specs, 2); ok {
+			for _, cr := range colds {
+				r.judgeCold(rp.Specs, base, stable, cr)
+			}
+		}
+	case "coldlsp":
+		for i := 0; i < reps && r.deaths < 2; i++ {
+			r.coldLsp(rp.Specs, rp.K, rp.Procs, rp.N, rp.OffSeed+uint64(i))
 		}
 	case "keyed":
 		texts := make([]string, len(rp.Specs))
